@@ -7,9 +7,12 @@ package main
 // case   := P <A> <I> <MR> <ME> T <n> <fieldidx>*n CF <m> <fieldidx>*m <op>*
 // op     := rec <k> <val>*n | msg <k> <val>*n | adv <d> | scan <nf> <k>*nf | exp
 // obs    := (<res> <snapshot> ;)*            (PANIC ends the observation)
-// res    := r ok|err | a | s <err T/F> cb <n> <k>*n pk <m> <k>*m | e <ns>
-// snap   := F <nf> {<k> <ready> <retries> <filled> <ipv4> <val>*n}*nf Q <nq> {<k> <active> <inactive>}*nq H ok|bad
-// Times are nanosecond offsets from the virtual epoch; flows and queue entries are sorted by key.
+// res    := r ok|err | a | s <err T/F> cb <n> <k>*n pk <m> <k>*m ix <n> <index>*n | e <ns>
+// snap   := F <nf> {<k> <ready> <retries> <filled> <ipv4> <val>*n}*nf Q <nq> {<k> <active> <inactive>}*nq H ok|bad A <nq> {<k> <index>}*nq
+// Times are nanosecond offsets from the virtual epoch; flows and queue entries (Q) are sorted by key.
+// A is the queue's backing slice in ARRAY ORDER: flow key and index field of every slot; it is
+// compared with the array of the exact heap model (coq/Model/Heap.v) after every operation.
+// ix: the index field of the popped (detached) item as seen inside each callback.
 
 import (
 	"encoding/hex"
@@ -57,7 +60,7 @@ func aggElement(name string) *entities.InfoElement {
 
 var aggEpoch = time.Unix(1700000000, 0)
 
-const aggKeys = 8
+const aggKeys = 16
 
 func aggKeyFields(k int) []entities.InfoElementWithValue {
 	var src, dst net.IP
@@ -221,11 +224,153 @@ func aggSnapshot(ap *intermediate.AggregationProcess, c *aggCase, locked bool) (
 	} else {
 		sb.WriteString(" H bad")
 	}
+	// the slice as it is: position by position
+	fmt.Fprintf(&sb, " A %d", len(sn.Queue))
+	for _, s := range sn.Queue {
+		fmt.Fprintf(&sb, " %d %d", aggKeyID(s.Key), s.Index)
+	}
 	return sb.String(), sn
+}
+
+// hpRunCase runs a raw heap probe ("HP <op>*", grammar in coq/Driver/C06drv.v) on a real
+// TimeToExpirePriorityQueue driven by the real container/heap.
+func hpRunCase(t []string) string {
+	var ops []intermediate.VerifHeapOp
+	for len(t) > 0 {
+		op := intermediate.VerifHeapOp{Op: t[0]}
+		t = t[1:]
+		take := func() int64 { x := atoz(t[0]); t = t[1:]; return x }
+		switch op.Op {
+		case "push", "upd":
+			op.Key = int(take())
+			op.Active, op.Inactive = take(), take()
+		case "set":
+			op.I = int(take())
+			op.Active, op.Inactive = take(), take()
+		case "swap":
+			op.I, op.J = int(take()), int(take())
+		case "fix", "rem":
+			op.I = int(take())
+		case "pop", "init", "peek":
+		default:
+			panic("bad probe op " + op.Op)
+		}
+		ops = append(ops, op)
+	}
+	return hpShow(intermediate.VerifHeapProbe(aggEpoch, ops))
+}
+
+func hpShow(steps []intermediate.VerifHeapStep) string {
+	var sb strings.Builder
+	for i, st := range steps {
+		if i > 0 {
+			sb.WriteString(" ")
+		}
+		fmt.Fprintf(&sb, "%s A %d", st.Result, len(st.Slots))
+		for _, s := range st.Slots {
+			fmt.Fprintf(&sb, " %d %d %d %d", s.Key, s.Index, s.Active, s.Inactive)
+		}
+		sb.WriteString(" ;")
+	}
+	return sb.String()
+}
+
+// hpGen draws a probe: the slice after the prefix is read back from the real queue to choose
+// valid / invalid indices and attached / detached keys.
+func hpGen(r *Rng) string {
+	var toks []string
+	var ops []intermediate.VerifHeapOp
+	pushed := map[int]bool{}
+	tm := func() int64 { return int64(r.Intn(7)) }
+	for n := 4 + r.Intn(40); n > 0; n-- {
+		var slots []intermediate.VerifHeapSlot
+		if len(ops) > 0 {
+			st := intermediate.VerifHeapProbe(aggEpoch, ops)
+			slots = st[len(st)-1].Slots
+		}
+		in := map[int]bool{}
+		for _, s := range slots {
+			in[s.Key] = true
+		}
+		idx := func() int { // mostly a position, sometimes not
+			switch r.Intn(10) {
+			case 0:
+				return -1
+			case 1:
+				return -2 - r.Intn(2)
+			case 2:
+				return len(slots) + r.Intn(3)
+			}
+			if len(slots) == 0 {
+				return 0
+			}
+			return r.Intn(len(slots))
+		}
+		op := intermediate.VerifHeapOp{}
+		switch x := r.Intn(100); {
+		case x < 38 || len(slots) == 0 && x < 70:
+			k := r.Intn(14)
+			for in[k] {
+				k = (k + 1) % 16
+			}
+			if len(in) >= 14 {
+				continue
+			}
+			op = intermediate.VerifHeapOp{Op: "push", Key: k, Active: tm(), Inactive: tm()}
+			pushed[k] = true
+			toks = append(toks, fmt.Sprintf("push %d %d %d", k, op.Active, op.Inactive))
+		case x < 52:
+			op = intermediate.VerifHeapOp{Op: "pop"}
+			toks = append(toks, "pop")
+		case x < 72:
+			var cand []int
+			for k := range pushed {
+				if in[k] || r.Intn(5) == 0 { // now and then a detached item
+					cand = append(cand, k)
+				}
+			}
+			if len(cand) == 0 {
+				continue
+			}
+			sort.Ints(cand)
+			k := cand[r.Intn(len(cand))]
+			op = intermediate.VerifHeapOp{Op: "upd", Key: k, Active: tm(), Inactive: tm()}
+			toks = append(toks, fmt.Sprintf("upd %d %d %d", k, op.Active, op.Inactive))
+		case x < 80:
+			op = intermediate.VerifHeapOp{Op: "fix", I: idx()}
+			toks = append(toks, fmt.Sprintf("fix %d", op.I))
+		case x < 88:
+			op = intermediate.VerifHeapOp{Op: "rem", I: idx()}
+			toks = append(toks, fmt.Sprintf("rem %d", op.I))
+		case x < 92:
+			if len(slots) == 0 {
+				continue
+			}
+			op = intermediate.VerifHeapOp{Op: "set", I: r.Intn(len(slots)), Active: tm(), Inactive: tm()}
+			toks = append(toks, fmt.Sprintf("set %d %d %d", op.I, op.Active, op.Inactive))
+		case x < 94:
+			if len(slots) == 0 {
+				continue
+			}
+			op = intermediate.VerifHeapOp{Op: "swap", I: r.Intn(len(slots)), J: r.Intn(len(slots))}
+			toks = append(toks, fmt.Sprintf("swap %d %d", op.I, op.J))
+		case x < 98:
+			op = intermediate.VerifHeapOp{Op: "init"}
+			toks = append(toks, "init")
+		default:
+			op = intermediate.VerifHeapOp{Op: "peek"}
+			toks = append(toks, "peek")
+		}
+		ops = append(ops, op)
+	}
+	return "HP " + strings.Join(toks, " ")
 }
 
 // aggRunCase runs one history on a fresh AggregationProcess.
 func aggRunCase(t []string) string {
+	if len(t) > 0 && t[0] == "HP" {
+		return hpRunCase(t[1:])
+	}
 	next := func() string { x := t[0]; t = t[1:]; return x }
 	expect := func(s string) {
 		if next() != s {
@@ -247,7 +392,10 @@ func aggRunCase(t []string) string {
 	}
 	oldMR, oldME := intermediate.MaxRetries, intermediate.MinExpiryTime
 	intermediate.MaxRetries, intermediate.MinExpiryTime = c.MR, time.Duration(c.ME)
-	defer func() { intermediate.MaxRetries, intermediate.MinExpiryTime = oldMR, oldME; intermediate.VerifUnsetNow() }()
+	defer func() {
+		intermediate.MaxRetries, intermediate.MinExpiryTime = oldMR, oldME
+		intermediate.VerifUnsetNow()
+	}()
 	cf := make([]string, len(c.CF))
 	for i, fi := range c.CF {
 		cf[i] = aggFields[fi]
@@ -318,10 +466,18 @@ func aggRunCase(t []string) string {
 				for n := atoi(next()); n > 0; n-- {
 					fails[atoi(next())] = true
 				}
-				var cbs []int
+				var cbs, ixs []int
 				err := ap.ForAllExpiredFlowRecordsDo(func(key intermediate.FlowKey, rec *intermediate.AggregationFlowRecord) error {
 					k := aggKeyID(key)
 					cbs = append(cbs, k)
+					// the item heap.Pop just returned for this flow (the lock is held here)
+					ix := -9
+					for _, f := range ap.VerifSnapshotLocked().Flows {
+						if f.Key == key {
+							ix = f.ItemIndex
+						}
+					}
+					ixs = append(ixs, ix)
 					if fails[k] {
 						return fmt.Errorf("export failed for key %d", k)
 					}
@@ -337,6 +493,10 @@ func aggRunCase(t []string) string {
 				fmt.Fprintf(&sb, " pk %d", len(picks))
 				for _, k := range picks {
 					fmt.Fprintf(&sb, " %d", k)
+				}
+				fmt.Fprintf(&sb, " ix %d", len(ixs))
+				for _, x := range ixs {
+					fmt.Fprintf(&sb, " %d", x)
 				}
 				return sb.String(), false
 			}
@@ -715,5 +875,49 @@ func runC06(env *Env) {
 		}
 		ops = append(ops, "exp")
 		emit("random", aggHeader(A, I, MR, ME, T, CF)+" "+strings.Join(ops, " "))
+	}
+	// 3. deep heaps: 5..14 flows armed at different times, so that up/down walk several levels
+	// and Update re-sorts inner nodes; small template, ready and not-ready flows, failing callbacks
+	n = 260
+	if env.Thorough() {
+		n = 6000
+	}
+	for i := 0; i < n; i++ {
+		A, I := int64(3+r.Intn(9)), int64(3+r.Intn(12))
+		T, CF := aggSmallT, aggSmallCF
+		nk := 5 + r.Intn(10)
+		MR := liveMR
+		if r.Intn(3) == 0 {
+			MR = r.Intn(3)
+		}
+		ops := []string{}
+		for j, m := 0, 12+r.Intn(40); j < m; j++ {
+			switch x := r.Intn(20); {
+			case x < 11:
+				kind := []int{0, 0, 0, 0, 1, 2, 3}[r.Intn(7)]
+				ops = append(ops, fmt.Sprintf("rec %d %s", r.Intn(nk), aggRecVals(r, T, kind)))
+			case x < 16:
+				ops = append(ops, fmt.Sprintf("adv %d", r.Intn(int(I)+2)))
+			case x < 19:
+				fails := []int{}
+				if r.Intn(3) == 0 {
+					fails = append(fails, r.Intn(nk))
+				}
+				ops = append(ops, "scan "+aggInts(fails))
+			default:
+				ops = append(ops, "exp")
+			}
+		}
+		ops = append(ops, fmt.Sprintf("adv %d", A+I), "scan 0", "exp")
+		emit("deep-heap", aggHeader(A, I, MR, liveME, T, CF)+" "+strings.Join(ops, " "))
+	}
+	// 4. raw probes of container/heap + TimeToExpirePriorityQueue (Init, Push, Pop, Remove, Fix on
+	// positions and on -1 / negative / beyond-the-end indices, Update of attached and detached items)
+	n = 700
+	if env.Thorough() {
+		n = 20000
+	}
+	for i := 0; i < n; i++ {
+		emit("heap-probe", hpGen(r))
 	}
 }
